@@ -24,6 +24,9 @@ object handles, on the repaired tree) and quantify over ALL message sequences `m
 * `remove_active_player_resets`  removing the player being reported ⇒ the report derived from the
                                  client's default player (from an empty player if it was the default)
 * `wake_on_change`               report changes ⇒ listener woken            (repaired tree)
+* `wake_sees_new_state`          a woken listener reads, at the moment it is woken, exactly the state
+                                 reported after the message (observation point kept by `stepW`)
+* `wake_on_change_observed`      report changes ⇒ woken AND the state seen at the wake-up is the new one
 * `wake_on_change_pinned_counterexample`   the same statement is FALSE for the pinned
                                  `_handle_remove_player` (defect D8), witness replayed by the harness
 * `wake_on_change_pinned_partial`  on the pinned tree the statement holds for every message
@@ -125,6 +128,33 @@ theorem wake_on_change (now : Int) (msgs : List Msg) (m : Msg)
     exfalso
     apply hchange
     rw [report_step now _ m hi, report_abs now _ hi, quiet_inert now _ m hi hn]
+
+/-- **C11, what the woken listener sees.**  `stepW` keeps the observation point of the
+    wake-up: its second component is the manager state at the moment
+    `await self.listener.state_updated()` runs.  Whenever the listener is woken, the state it
+    reads then (as `MrpPushUpdater.state_updated` does) is the state reported after the
+    message — never a stale one — and the final state is the one all other theorems speak of. -/
+theorem wake_sees_new_state (now : Int) (msgs : List Msg) (m : Msg) (seen : Mgr)
+    (hwoken : (stepW true (reach msgs) m).2 = some seen) :
+    seen = (step (reach msgs) m).1 ∧
+    report now seen = report now (stepW true (reach msgs) m).1 := by
+  rw [stepW_eq] at hwoken ⊢
+  simp only at hwoken ⊢
+  split at hwoken
+  · cases hwoken; exact ⟨rfl, rfl⟩
+  · cases hwoken
+
+/-- **C11, wake-up with the new state.**  Whenever a message changes the reported state the
+    listener is woken *and what it sees at that moment is the new reported state*. -/
+theorem wake_on_change_observed (now : Int) (msgs : List Msg) (m : Msg)
+    (hchange : report now (reach msgs) ≠ report now (step (reach msgs) m).1) :
+    ∃ seen, (stepW true (reach msgs) m).2 = some seen ∧
+      report now seen = report now (step (reach msgs) m).1 := by
+  have hw := wake_on_change now msgs m hchange
+  refine ⟨(step (reach msgs) m).1, ?_, rfl⟩
+  rw [stepW_eq]
+  unfold step at hw ⊢
+  simp [hw]
 
 /-- D8 (DESIGN §6): set-now-playing-client A; set-state (A, default player, Stopped);
     remove-player (A, default player). -/
@@ -239,6 +269,14 @@ example :
 example : report 0 (reach d8Prefix) ≠ report 0 (step (reach d8Prefix) d8Msg).1 ∧
     (step (reach d8Prefix) d8Msg).2 = true ∧ (stepPinned (reachPinned d8Prefix) d8Msg).2 = false := by
   decide
+
+/-- `wake_sees_new_state` / `wake_on_change_observed`: removing the active client wakes the
+    listener, and what it sees is already the idle state (not the removed client). -/
+example :
+    let h : List Msg := [.setNowPlayingClient 1 none, .setState ⟨1, none, 1⟩ (some .playing) none none]
+    ((stepW true (reach h) (.removeClient 1 none)).2.map fun s => (report 0 s).map (·.state))
+      = some (some .idle) ∧
+    (report 0 (reach h)).map (·.state) = some .playing := by decide
 
 /-- `wake_on_change_pinned_partial`: a message allowed by its hypothesis that does change the
     report on the pinned tree (removing the explicitly chosen, playing player 2). -/
